@@ -699,35 +699,84 @@ def fold_constant_subexprs(case, only_op=None):
     return new, sorted(ops)
 
 
+PRE_OPTS = ('cvt:pre:all=0', 'cvt:pre:eqresult=0', 'cvt:pre:eqbinary=0', 'cvt:pre:unnest=0')
+
+
+def essential_pre_opts(exe, case, wdir):
+    """those cvt:pre:*=0 options without which the failure disappears"""
+    import copy
+    ess = []
+    for o in PRE_OPTS:
+        if o in case['cfg']['options']:
+            c2 = copy.deepcopy(case)
+            c2['cfg']['options'].remove(o)
+            if not any_failure(exe, c2, wdir, ignore_crash=True):
+                ess.append(o)
+    return ess
+
+
 def const_fold_class(exe, case, wdir):
-    """if replacing constant subexpressions by their values makes every failure disappear, name the operators whose
-    constant instances are responsible"""
+    """if replacing constant subexpressions by their values makes the equivalence failure disappear, name the
+    (innermost) operators whose constant instances are responsible"""
     _, allops = fold_constant_subexprs(case, only_op='\0')      # collect only
     if not allops:
         return None
     single = []
     for op in allops:
         folded, _ = fold_constant_subexprs(case, only_op=op)
-        if not any_failure(exe, folded, wdir):
+        if not any_failure(exe, folded, wdir, ignore_crash=True):
             single.append(op)
+    res = None
     if single:
-        # prefer functional operators over the arithmetic/relational ones that merely contain them
-        inner = [o for o in single if o in ('abs', 'min', 'max', 'if', 'count', 'numberof', 'pl', 'alldiff', 'implies', 'iff',
-                                            'and', 'or', 'not', 'forall', 'exists', '/', 'pow', 'sqr') or o in c01gen.CNT]
-        return 'const-subexpr:' + '+'.join(inner or single)
-    folded, _ = fold_constant_subexprs(case)
-    if not any_failure(exe, folded, wdir):
-        return 'const-subexpr:' + '+'.join(allops)
-    return None
+        # innermost first: drop operators whose constant instances contain another candidate operator
+        m, grids = c01gen.model_from_json(case['model'])
+        pts = c01gen.all_points(grids)
+        outer = set()
+
+        def is_const(e):
+            try:
+                return len(set(nlgen.ev(e, p) for p in pts)) == 1
+            except nlgen.Undefined:
+                return False
+
+        def inner_ops(e, acc):
+            for c in c01gen.children(e):
+                if c[0] not in ('n', 'v', 'T', 'F'):
+                    acc.add(c[0])
+                inner_ops(c, acc)
+
+        def scan(e):
+            if e[0] in ('n', 'v', 'T', 'F'):
+                return
+            if e[0] in single and is_const(e):
+                acc = set()
+                inner_ops(e, acc)
+                if any(o in single and o != e[0] for o in acc):
+                    outer.add(e[0])
+            for c in c01gen.children(e):
+                scan(c)
+        for _, _, e in c01gen.model_exprs(m):
+            scan(e)
+        keep = [o for o in single if o not in outer] or single
+        res = 'const-subexpr:' + '+'.join(keep)
+    else:
+        folded, _ = fold_constant_subexprs(case)
+        if not any_failure(exe, folded, wdir, ignore_crash=True):
+            res = 'const-subexpr:' + '+'.join(allops)
+    if res:
+        ess = essential_pre_opts(exe, case, wdir)
+        if ess:
+            res += ':' + ','.join(ess)
+    return res
 
 
-def any_failure(exe, case, wdir):
+def any_failure(exe, case, wdir, ignore_crash=False):
     """does the case still show any failure (crash, bad refusal, false infeasibility claim, non-equivalence)?"""
     try:
         m, grids, r = run_converter(exe, case, wdir, 'cf')
         cl = classify_run(r)
         if cl[0] in ('crash', 'bad-refusal'):
-            return True
+            return not ignore_crash
         if cl[0] == 'infeasible-claimed':
             return _feasible_point(m, grids, case['cfg']) is not None
         if cl[0] != 'delivered' or cl[1].unsupported or cl[1].inexact:
@@ -1236,11 +1285,14 @@ class Agg:
                       'diagnosis': out.get('diag'), 'case': out['case'], 'unshrunk_case': out.get('orig_case')}
             what = '%s at point %s: %s [%s]' % (f.get('dir'), f.get('point'), f.get('what'), '; '.join(model_text(out['case'])[-3:]))
             ck.add_violation(sig, what, replay, found_input=True)
+            self.save_found(sig, what, replay, out)
             if self.sigs[sig] == 1:
                 ck.sample('finding %s: %s' % (sig, what[:300]))
         elif st in ('bad-refusal', 'crash'):
             sig = st + ':' + (out.get('frame') or model_ops_key(out['case']))
             self.sigs[sig] = self.sigs.get(sig, 0) + 1
+            self.save_found(sig, out.get('what', '').split('\n')[0][:200], {'model_text': model_text(out['case']), 'options': out['case']['cfg']['options'],
+                                                                              'accept': out['case']['cfg']['accept']}, out)
             ck.add_violation(sig, '%s [%s]' % (out.get('what', '').split('\n')[0][:200], '; '.join(model_text(out['case']))),
                              {'model_text': model_text(out['case']), 'options': out['case']['cfg']['options'],
                               'accept': out['case']['cfg']['accept'], 'case': out.get('case'), 'what': out.get('what'),
@@ -1251,6 +1303,25 @@ class Agg:
         elif st == 'unsupported-type':
             ck.add_violation('unsupported-delivered-type', 'delivered constraint type without semantics in the oracle: %s' % out.get('what'),
                              {'case': out.get('case')}, found_input=False)
+
+    def save_found(self, sig, what, replay, out):
+        """every run keeps the smallest case seen per signature under build/c01-findings/ (also for known findings,
+        whose replay objects common.py does not store); corpus/C01 entries are copied from there by hand"""
+        try:
+            d = os.path.join(BUILD, 'c01-findings')
+            os.makedirs(d, exist_ok=True)
+            name = ''.join(ch if ch.isalnum() or ch in '-_+' else '_' for ch in sig)[:80]
+            path = os.path.join(d, name + '.json')
+            size = len(json.dumps(out['case']['model']))
+            if os.path.exists(path):
+                try:
+                    if json.load(open(path)).get('size', 1 << 30) <= size:
+                        return
+                except Exception:
+                    pass
+            json.dump({'signature': sig, 'what': what, 'size': size, 'case': out['case'], 'replay': replay}, open(path, 'w'), indent=1, default=str)
+        except Exception:
+            pass
 
     def report(self, ck, wall):
         ck.log('end-to-end: %d cases in %.1fs wall (%.1f cpu-s), status %s' % (self.n, wall, self.time, dict(sorted(self.status.items()))))
